@@ -27,8 +27,11 @@ def extent_kind(e, fn, depth=0):
         d = single_def(fn, e.id)
         if d is not None:
             return extent_kind(d, fn, depth + 1)
-    if isinstance(e, ast.Call) and pyfe.call_name(e) == "len" and isinstance(e.args[0], ast.Name) and depth < 4:
-        d = single_def(fn, e.args[0].id)
+    if isinstance(e, ast.Call) and pyfe.call_name(e) == "len" and len(e.args) == 1 and depth < 4:
+        a0 = e.args[0]
+        if isinstance(a0, ast.Attribute) and a0.attr == "value":      # len(dx.value) == len(dx) for a UnitArray
+            a0 = a0.value
+        d = single_def(fn, a0.id) if isinstance(a0, ast.Name) else None
         if d is not None:
             # len(dx) where dx is built from dsto(species labels) / a per-species list
             ds = pyfe.src(d)
@@ -64,6 +67,12 @@ def loop_kind(fn, name, at):
             it = p.iter
             if isinstance(it, ast.Call) and pyfe.call_name(it) == "range" and len(it.args) == 1:
                 return extent_kind(it.args[0], fn)
+            return None
+        if isinstance(p, ast.For) and isinstance(p.target, ast.Tuple) and len(p.target.elts) == 2 and \
+                isinstance(p.target.elts[0], ast.Name) and p.target.elts[0].id == name:
+            it = p.iter        # for name, item in enumerate(E): name ranges over len(E)
+            if isinstance(it, ast.Call) and pyfe.call_name(it) == "enumerate" and len(it.args) == 1 and not it.keywords:
+                return extent_kind(ast.parse("len(%s)" % pyfe.src(it.args[0]), mode="eval").body, fn)
             return None
         if isinstance(p, (ast.ListComp, ast.GeneratorExp)):
             for g in p.generators:
